@@ -29,6 +29,8 @@ type loopInfo struct {
 	variant  string
 	headSt   *State
 	entrySt  *State // state on loop entry (before havoc)
+	declared map[string][]string
+	entryAlloc string
 }
 
 type edgeInfo struct {
@@ -414,17 +416,41 @@ func (fr *Frame) loopHead(li *loopInfo, phis []*ssa.Phi) {
 		li.phiHead[ph] = hv
 	}
 	ws := fr.eng.writeSetOfBlocks(fr, li.blocks)
+	// loop-level modifies: objects existing at loop entry that are not
+	// designated keep their contents (checked again at every latch)
+	li.declared = nil
+	if len(li.lc.Modifies) > 0 {
+		li.declared = map[string][]string{}
+		for _, m := range li.lc.Modifies {
+			locs, err := fr.evalModifies(m, &evalCtx{fr: fr, st: fr.st, old: fr.entry, loop: li})
+			if err != nil {
+				fr.stale(name+"/modifies", err)
+				continue
+			}
+			for _, l := range locs {
+				for _, leaf := range leafLocs(l) {
+					n := fr.vc.registerHeap(leaf)
+					li.declared[n] = append(li.declared[n], leaf.ref)
+				}
+			}
+		}
+	}
 	if ws.all {
 		fr.vc.abstracted("loop " + name + " calls unknown code: all heaps havocked")
 		for _, h := range sortedKeys(fr.vc.heapSort) {
 			fr.vc.heapHavoc(fr.st, h)
 		}
 	}
+	li.entryAlloc = fr.st.alloc
 	for _, h := range sortedKeys(ws.heaps) {
 		if _, ok := fr.vc.heapSort[h]; !ok {
 			fr.vc.heapSort[h] = ws.heaps[h]
 		}
-		fr.vc.heapHavoc(fr.st, h)
+		old := fr.vc.heapGet(fr.st, h)
+		nw := fr.vc.heapHavoc(fr.st, h)
+		if li.declared != nil && !ws.all && !strings.HasPrefix(h, "G$") {
+			fr.vc.fact(loopFrameFormula(li, h, nw, old))
+		}
 	}
 	if ws.allocs || ws.all {
 		a := fr.vc.fresh("alloc", sInt)
@@ -443,6 +469,14 @@ func (fr *Frame) loopHead(li *loopInfo, phis []*ssa.Phi) {
 			continue
 		}
 		fr.assume(t)
+	}
+	for _, lm := range li.lc.Lemmas {
+		t, err := fr.evalLemmaInstance(lm, &evalCtx{fr: fr, st: fr.st, old: fr.entry, loop: li})
+		if err != nil {
+			fr.stale(name+"/lemma", err)
+			continue
+		}
+		fr.vc.fact(t)
 	}
 	if li.lc.Decreases != nil {
 		t, err := fr.evalClauseInt(li.lc.Decreases, &evalCtx{fr: fr, st: fr.st, old: fr.entry, loop: li})
@@ -495,9 +529,30 @@ func (fr *Frame) loopLatch(li *loopInfo, from *ssa.BasicBlock) {
 			fr.oblige("decreases", name+"/decreases", and(app("<=", "0", li.variant), app("<", t, li.variant)))
 		}
 	}
+	if li.declared != nil {
+		for _, h := range sortedKeys(li.headSt.heaps) {
+			cur := fr.vc.heapGet(fr.st, h)
+			head := li.headSt.heaps[h]
+			if cur == head || strings.HasPrefix(h, "G$") || strings.HasPrefix(h, "RV$") {
+				continue
+			}
+			fr.oblige("frame", name+"/frame#"+h, loopFrameFormula(li, h, cur, head))
+		}
+	}
 	for ph, v := range saved {
 		fr.vals[ph] = v
 	}
+}
+
+// loopFrameFormula: objects that existed at loop entry and are not designated
+// by the loop's modifies clauses have the same slot in heaps a and b.
+func loopFrameFormula(li *loopInfo, h, a, b string) string {
+	var excl []string
+	for _, r := range li.declared[h] {
+		excl = append(excl, app("distinct", "r!", r))
+	}
+	cond := and(append([]string{app("<=", "r!", li.entryAlloc)}, excl...)...)
+	return fmt.Sprintf("(forall ((r! Int)) (! (=> %s (= (select %s r!) (select %s r!))) :pattern ((select %s r!))))", cond, a, b, a)
 }
 
 // stale records a contract clause that no longer resolves against the code.
